@@ -120,11 +120,12 @@ FilterRef(cs) ==
 RemoveCases == {[body |-> b, remove |-> r, path |-> p] :
                    b \in {"ok", "raises_exception", "raises_base_exception"},
                    \* raises_enoent: the remover itself reports "not found" (and removes nothing): an error of the remover like any other
-                   r \in {"ok", "raises", "raises_enoent"}, p \in {"file", "missing", "dangling_symlink", "directory"}}
+                   \* ok_nested: the remover succeeds, and on its way protects (and loses) a second path of its own with the same helper
+                   r \in {"ok", "ok_nested", "raises", "raises_enoent"}, p \in {"file", "missing", "dangling_symlink", "directory"}}
 RemoveRef(cs) ==
   CASE cs.body = "ok" -> [removed |-> FALSE, propagates |-> "none", logged |-> 0]
     [] cs.body = "raises_base_exception" -> [removed |-> FALSE, propagates |-> "original", logged |-> 0]
-    [] cs.remove = "ok" -> [removed |-> TRUE, propagates |-> "original", logged |-> 0]
+    [] cs.remove \in {"ok", "ok_nested"} -> [removed |-> TRUE, propagates |-> "original", logged |-> 0]
     [] OTHER -> [removed |-> TRUE, propagates |-> "remove_error", logged |-> 1]
 
 CauseCases == {[where |-> w, explicit |-> e] : w \in {"in_handler", "outside", "in_nested_handler"},
